@@ -81,6 +81,7 @@ def secure_models(prog):
 
 def run(ctx):
     _run(ctx)
+    linkage_params_not_from_clients(ctx)
     r8 = ctx.rule('R8', 'the caller identity every scoped query uses is the '
                   'context built from this request and removed after it',
                   'GD')
@@ -104,6 +105,8 @@ def _run(ctx):
     r1 = ctx.rule('R1', 'every query construction in the DB API is scoped, '
                   'admin-gated or in the frozen raw table', 'QSHAPE')
     r1.floor(25)
+    from mstatic.rules import shared as _shf
+    _shf.facade_forwards_parameters(ctx, r1)
     for f in dbfuncs:
         for n in own_nodes(f.node):
             if not isinstance(n, ast.Call):
@@ -671,6 +674,71 @@ def tx_cache_lifetime(ctx, rule):
         ctx.construct(g, extra='hands out the bound cache only'),
         'get_tx_scoped_cache does more than return the cache bound with '
         'the session', ctx.loc(g))
+
+
+def linkage_params_not_from_clients(ctx):
+    """Workflow._create_execution links a new execution to a parent task
+    and a root execution from `params` (the root's environment is what
+    env() returns, through an unscoped relationship).  The engine sets these
+    for sub-workflows; anything that carries *client* supplied params to
+    start_workflow - POST /v2/executions, cron and event triggers - must
+    refuse them first (F31)."""
+    prog = ctx.prog
+    r = ctx.rule('R10', 'parameters that link an execution to a parent task '
+                 '/ root execution are refused when they come from a client',
+                 'GD + AGREE')
+    ce = prog.func('mistral.engine.workflows.Workflow._create_execution')
+    linkage = set()
+    for d in own_nodes(ce.node):
+        if isinstance(d, ast.Dict):
+            for k, v in zip(d.keys, d.values):
+                if isinstance(k, ast.Constant) and isinstance(v, ast.Call) \
+                        and U.call_name(v) == 'get' and \
+                        dotted(v.func.value) == 'params' and v.args and \
+                        isinstance(v.args[0], ast.Constant) and \
+                        k.value.endswith('_execution_id'):
+                    linkage.add(v.args[0].value)
+    if len(linkage) < 2:
+        raise AnalysisError('C15.R10: linkage parameters of '
+                            '_create_execution not found')
+    try:
+        reserved = set(prog.const('mistral.engine.utils',
+                                  'RESERVED_WORKFLOW_PARAMS'))
+    except Exception:
+        reserved = set()
+    vf = prog.funcs.get('mistral.engine.utils.validate_workflow_params')
+    okv = vf is not None and linkage <= reserved and any(
+        isinstance(x, ast.Raise) for x in own_nodes(vf.node)) and \
+        U.phas(vf.node, 'RESERVED_WORKFLOW_PARAMS')
+    r.check(okv, 'mistral.engine.utils.validate_workflow_params :: refuses '
+            'every linkage parameter',
+            'the parameters _create_execution takes the parent task / root '
+            'execution from (%s) are not all refused by a validator (%s)'
+            % (sorted(linkage), sorted(reserved)),
+            prog.loc(ce))
+    sites = (
+        ('mistral.api.controllers.v2.execution.ExecutionsController.post',
+         'start_workflow'),
+        ('mistral.services.triggers.create_cron_trigger',
+         'create_cron_trigger'),
+        ('mistral.services.triggers.create_event_trigger',
+         'create_event_trigger'),
+    )
+    for q, sink in sites:
+        f = prog.func(q)
+        cfg = ctx.cfg(f)
+        sinks = [n for n, c in cfg.calls(
+            lambda c: U.call_name(c) == sink and
+            (dotted(c.func) or '') != q.rsplit('.', 1)[1])]
+        vals = [n for n, c in cfg.calls(
+            lambda c: U.call_name(c) == 'validate_workflow_params')]
+        r.check(bool(sinks) and bool(vals) and all(
+            any(cfg.dominates(v, s_) for v in vals) for s_ in sinks),
+            ctx.construct(f, extra='client params validated first'),
+            'client supplied workflow params reach %s without the linkage '
+            'parameters being refused: a caller can attach its execution to '
+            'another project\'s execution and read its environment'
+            % sink, ctx.loc(f))
 
 
 def check_mutation(ctx, r3, f):
